@@ -109,6 +109,13 @@ def main():
             kind = 'lemma' if o['mode'] == 'proof' else 'fn'
             ob = dict(name='verus:%s::%s' % (unit, o['name']), engine='verus', kind=kind,
                       status='ok' if o['success'] else 'failed', time_s=o['time_us'] / 1e6, rlimit=o['rlimit'])
+            if not o['success'] and o.get('inconclusive'):
+                ob['status'] = 'undecided'
+                obligations.append(ob)
+                msg = 'verus %s::%s fails but contains a closure that carries no contract (inconclusive, not a violation)' % (unit, o['name'])
+                if msg not in undecided:
+                    undecided.append(msg)
+                continue
             obligations.append(ob)
             if not o['success'] and r['status'] == 'failed':
                 det = '\n\n'.join(b for b in r['error_blocks'])
